@@ -1,7 +1,21 @@
 import PptxModel.Model.Proto
 import PptxModel.Model.ChartData
+import PptxModel.Model.Hierarchy
 namespace Pptx.Drv.C07
-open Pptx Pptx.Proto Pptx.ChartData
+open Pptx Pptx.Proto Pptx.ChartData Pptx.Hierarchy
+
+/-- forest tokens in pre-order: `label/nsubs` -/
+partial def parseForest : Nat → List String → Option (List (Cat Str) × List String)
+  | 0, rest => some ([], rest)
+  | n + 1, t :: rest => do
+      match t.splitOn "/" with
+      | [lab, nk] =>
+        let lab ← decStr lab; let nk ← nk.toNat?
+        let (subs, rest') ← parseForest nk rest
+        let (sibs, rest'') ← parseForest n rest'
+        pure (Cat.mk lab subs :: sibs, rest'')
+      | _ => none
+  | _ + 1, [] => none
 
 def decVals (t : String) : Option (List (Option Int)) :=
   if t == "!" then some [] else (t.splitOn ",").mapM fun x => if x == "n" then some none else some <$> x.toInt?
@@ -16,6 +30,17 @@ def handle : List String → Option String
       let back := readValues (n, pts)
       let ok := if back == vs then "rt" else "RT-MISMATCH"
       pure s!"{n} {",".intercalate ("" :: pts.map fun p => s!"{p.idx}:{p.v}")} {ok}"
+  | "c07.flat" :: depth :: ntop :: toks => do
+      -- levels bottom-up as the writer emits them, then the flattened labels of every leaf
+      let d ← depth.toNat?; let n ← ntop.toNat?
+      let (cats, rest) ← parseForest n toks
+      if !rest.isEmpty then none
+      let lvls := (List.range d).reverse.map fun j => entries 0 j cats
+      let lv := "|".intercalate (lvls.map fun es => ",".intercalate (es.map fun e => s!"{e.1}:{encStr e.2}"))
+      let leaves := leafCountL cats
+      let fl := "|".intercalate ((List.range leaves).map fun i =>
+        ",".intercalate ((flattened d cats i).map fun o => match o with | some l => encStr l | none => "?"))
+      pure s!"{uniformL d cats} {lv} {fl}"
   | ["c08.cat", depth, j, len] => do
       let depth ← depth.toNat?; let j ← j.toNat?; let len ← len.toNat?
       let (col, top, bottom) := valuesRef depth j len
